@@ -168,7 +168,9 @@ func zzC06_do() {
 	s := zzNewSession()
 	errs := 0
 	maxRetransmit := uint32(symChoose("maxRetransmit", 2) + 1)
-	cc := zzNewConn(s, zzConnCfg{midSeed: 1000, ackTimeout: 1 << 20, maxRetrans: maxRetransmit, nstart: 1, errs: &errs})
+	// the request's message ID: an ordinary one, or 0 (the counter has just wrapped) - every 16-bit value is an ID
+	midSeed := []int32{1000, 32766}[symChoose("first-message-id", 2)]
+	cc := zzNewConn(s, zzConnCfg{midSeed: midSeed, ackTimeout: 1 << 20, maxRetrans: maxRetransmit, nstart: 1, errs: &errs})
 	now := int64(1 << 41)
 	s.now = &now
 	symSetNow(time.Unix(0, now))
@@ -186,6 +188,10 @@ func zzC06_do() {
 		c.done = true
 	}()
 	zzWaitWritten(s, 1)
+	if midSeed == 32766 {
+		symAssert(s.written[0].mid == 0, "the wrapped counter yields message ID 0")
+		symCover("message-id-0")
+	}
 	// some copies are lost: housekeeping ticks spaced by more than the (growing) timeout
 	lost := symChoose("lost", 4)
 	for i := 0; i < lost; i++ {
